@@ -262,6 +262,23 @@ def handle : List String → String
     match parseRaw (tt.length + 1) tt with
     | some (t, []) => " ".intercalate (showNode (build b t))
     | _ => "bad-tree"
+  | "runhook" :: hook :: fmt :: parent :: ng :: rest =>
+    -- decode(formatter=<instance of a subclass overriding attributes()>): U items as they come, R sorted in reverse,
+    -- D the base class's answer without the keys that start with "data-"
+    match parseFmt fmt with
+    | some (.obj c) =>
+      let k := ng.toNat!
+      let graph := parseGraph (rest.take k)
+      let tt := rest.drop k
+      let par := if parent == "N" then none else some (pcps parent)
+      let h : AttrHook :=
+        if hook == "U" then id
+        else if hook == "R" then fun as => (sortAttrs as).reverse
+        else fun as => (attributes c as).filter fun kv => !([100, 97, 116, 97, 45].isPrefixOf kv.1)
+      match parseNode (tt.length + 1) tt with
+      | some (n, []) => showP (renderHook h c (interpOf graph) par n)
+      | _ => "bad-tree"
+    | _ => "bad-fmt"
   | ["populate"] =>
     -- the alternatives the mirror of `_populate_class_variables` assembles from the generated stdlib tables
     " ".intercalate ((populateAlts BS.Gen.c15Html5Items BS.Gen.c15Codepoint2name).map fun a =>
